@@ -318,7 +318,7 @@ Qed.
 
 Lemma bv_bits_ok c bv : wf bv -> cap_ok bv -> bv_bits c bv = Ok (bits_of bv).
 Proof.
-  intros Hwf Hcap. unfold bv_bits, nseq. rewrite <- (bits_of_length_nat bv Hwf).
+  intros Hwf Hcap. unfold bv_bits. rewrite ?nseq_unfold. rewrite <- (bits_of_length_nat bv Hwf).
   apply map_res_seq. intros i Hi. rewrite Nat.add_0_l.
   pose proof (bits_of_length_nat bv Hwf) as HL. pose proof (cap_W bv Hcap) as Hc.
   rewrite get_bit_spec; [| exact Hwf | exact Hcap | unfold W; lia]. cbn [bind].
